@@ -125,7 +125,7 @@ PROPS = {
              "leaves (live and dead), GetHash at every position, 3 random Prove requests, NodeMap/NumDels/CachedLeaves counts; "
              "then redo with other blocks; Pollard, full MapPollard (TotalRows 0,5,63) and partial MapPollard (TotalRows 0,63; "
              "deletions verified with remember first; stored map and cached set dumped)",
-        strength="P: undo is the exact inverse on the reference to any depth; V: implementations after Undo = reference previous state",
+        strength="P: undo is the exact inverse on the reference to any depth, observational equivalence is a bisimulation; V: implementations after Undo = reference previous state; Gallina mirror of MapPollard.Modify/Undo (Model/MapMut.v) = code state-for-state on every call",
         level_text="The reference-level inverse (one block and any depth) is a Coq theorem; that Pollard.Undo and MapPollard.Undo "
                    "(full and partial) land in a state observationally identical to the reference's previous state is judged by the "
                    "extracted oracle after every single undo and after redo on another branch.",
@@ -155,7 +155,7 @@ PROPS = {
              "from NewMapPollardFromRoots at a reached state; after EVERY operation the stored map and cached leaves are dumped: "
              "every stored (pos,hash) true, stored within allowed(R), needed(R) within stored, cached set = R, look-ups, canonical "
              "proofs of random sub-lists of R; distinct_nontrivial = distinct operation sequences",
-        strength="P: ordering of needed positions; V: stored/needed/allowed invariants and provability after every operation; mirror of the read side (Model/MapRead.v: Prove, GetHash, GetLeafPosition(s), GetRoots, GetMissingPositions, VerifyPartialProof, verify) = code on every dumped state",
+        strength="P: ordering of needed positions, read-side theorems on every consistent state (C09c_*); V: stored/needed/allowed invariants and provability after every operation; Gallina mirror of the MUTATORS (Model/MapMut.v: Modify, Undo, Verify(remember), Ingest, Prune) = code state-for-state on every call incl. rejected ones; mirror of the read side (Model/MapRead.v: Prove, GetHash, GetLeafPosition(s), GetRoots, GetMissingPositions, VerifyPartialProof, verify) = code on every dumped state",
         level_text="needed(R) and allowed(R) are defined on the Coq reference; after every operation of random interleavings the "
                    "extracted oracle checks the dumped partial forest against them and against the true hashes.",
         technique="Coq reference model + extracted-oracle invariant check after every operation",
@@ -192,7 +192,7 @@ PROPS = {
              "vs canonical proof of the union; GetProofSubset on random permuted subsets (hashes, targets, proof) and on an "
              "uncovered target (must err); GetMissingPositions vs the reference definition; MapPollard.GetMissingPositions vs "
              "'canonical positions not stored'; VerifyPartialProof with the true hashes (accept) and one flipped bit (reject)",
-        strength="P: union/coverage on leaf sets; V: every helper's output = canonical proofs/positions of the reference",
+        strength="P: the mirrors of AddProof, GetProofSubset and GetMissingPositions compute EXACTLY the reference values for all states <= 2^63 leaves and all duplicate-free requests in any order (C14_addproof_is_canonical_union, C14_subset_is_canonical, C14_subset_error_iff_uncovered, C14_missing_positions_exact); canonical proofs depend only on the leaf set; V: mirrors = code on every call; every helper's output = canonical proofs/positions of the reference; VerifyPartialProof with the missing hashes supplied succeeds",
         level_text="Union and coverage are Coq theorems on the abstract level; the exact proofs/positions each helper must return are "
                    "computed by the extracted reference and compared with AddProof, GetProofSubset, GetMissingPositions and the map "
                    "forest's partial-proof API.",
